@@ -123,6 +123,10 @@ func cmdEvents(o *Out, line string, f []string) {
 	switch kind {
 	case "basic":
 		c = events.NewBasicCollector(snap)
+	case "basicrefuse":
+		// the wrapped collector refuses its n-th Add (0-based): that AddEvent fails, the event still counts in the totals
+		snap.failN = map[int]bool{n: true}
+		c = events.NewBasicCollector(snap)
 	case "sampling":
 		c = events.NewSamplingCollector(snap, n)
 	case "passthrough":
@@ -197,7 +201,12 @@ func cmdEvents(o *Out, line string, f []string) {
 			}
 			continue
 		}
-		if res[i] != "o" {
+		if kind == "basicrefuse" && count == n {
+			if res[i] != "e" {
+				o.violation(line, "the wrapped collector refused the sample but AddEvent reported success", nil)
+				return
+			}
+		} else if res[i] != "o" {
 			o.violation(line, "a non-nil event was refused", nil)
 			return
 		}
@@ -222,6 +231,10 @@ func cmdEvents(o *Out, line string, f []string) {
 		collect := true
 		if kind == "sampling" {
 			collect = count%n == 0
+			count++
+		}
+		if kind == "basicrefuse" {
+			collect = count != n // refused by the wrapped collector: not persisted, but part of every later total
 			count++
 		}
 		switch kind {
@@ -378,8 +391,11 @@ func streamEvents(o *Out, rng *rand.Rand, thorough bool, _ []string) {
 		n = 10000
 	}
 	for i := 0; i < n; i++ {
-		kind := []string{"basic", "sampling", "passthrough", "randomT", "randomF", "interval0", "intervalInf", "intervalT"}[rng.Intn(8)]
+		kind := []string{"basic", "sampling", "passthrough", "randomT", "randomF", "interval0", "intervalInf", "intervalT", "basicrefuse"}[rng.Intn(9)]
 		rate := 1 + rng.Intn(7)
+		if kind == "basicrefuse" {
+			rate = rng.Intn(6)
+		}
 		if kind == "randomT" || kind == "randomF" {
 			rate = []int{-5, 0, 1, 30, 50, 80, 99, 100, 101, 150}[rng.Intn(10)]
 		}
